@@ -7,8 +7,18 @@ ITERABLE_KINDS = ('list', 'shuffled', 'dups', 'tuple', 'generator', 'pyset',
                   'dict', 'range', 'other-impl', 'keys-view', 'values-view')
 
 
+_SUBS = {}
+
+
+def subclass_of(cls):
+    """An application subclass (no new behaviour) of a container class."""
+    if cls not in _SUBS:
+        _SUBS[cls] = type(cls)(cls.__name__ + 'Sub', (cls,), {})
+    return _SUBS[cls]
+
+
 def make_container(fam, kind, impl, keys, values, rng, sizes=None,
-                   pool=None):
+                   pool=None, subclass=False):
     """A container of `kind` holding `keys` (mapping kinds: random values),
     built through the public API so that trees have real shapes.
 
@@ -20,6 +30,10 @@ def make_container(fam, kind, impl, keys, values, rng, sizes=None,
     cls = fam.cls(kind, impl)
     if sizes and kind in ('BTree', 'TreeSet'):
         harness.set_node_sizes(cls, *sizes)
+    if subclass:
+        # (an instance of an application subclass is as good an operand as
+        # an instance of the class itself)
+        cls = subclass_of(cls)
     c = cls()
     ks = list(keys)
     rng.shuffle(ks)
